@@ -2,6 +2,7 @@
 // Unit stages: wgsl::{global_shader_stages, naga_stages, update_stages_blocks, update_stages}
 // against the DAG-DFS contract of DESIGN.md 5/C03 and the memoisation measure of C20.
 #![feature(allocator_api)]
+#![recursion_limit = "4096"]
 #![allow(unused_imports, unused_variables, unused_mut, dead_code, unused_braces, unused_parens)]
 use vstd::prelude::*;
 use vstd::std_specs::iter::IteratorSpec;
